@@ -27,10 +27,19 @@ TYPES = ("int", "str")
 # independent conversion oracle on the value universe {small ints, short strings}
 # ------------------------------------------------------------------------------------------------
 
+STRICT = [False]     # Options(no_explicit_cast=True) of the case being evaluated: a value converts only within its type
+
+
+def strict_for(case):
+    STRICT[0] = bool((case.get("options") or {}).get("no_explicit_cast"))
+
+
 def conv(ty, v):
     """(ok, value) — what a conforming conversion of v to ty is; ok=False when v has no int/str reading."""
     if ty is None:
         return True, v
+    if STRICT[0] and ((ty == "int" and not isinstance(v, int)) or (ty == "str" and not isinstance(v, str))):
+        return False, None
     if ty == "int":
         if isinstance(v, bool):
             return False, None
@@ -131,7 +140,8 @@ def build_source(case):
     opts = case.get("options") or {}
     dec_args = []
     if opts:
-        dec_args.append("options=Options(" + ", ".join(f"{k}={v!r}" for k, v in sorted(opts.items())) + ")")
+        dec_args.append("options=Options(" + ", ".join(
+            f"{k}={v['type'] if isinstance(v, dict) else repr(v)}" for k, v in sorted(opts.items())) + ")")
     if case.get("eager"):
         dec_args.append("eager=True")
     dec = "@utype.parse" + (f"({', '.join(dec_args)})" if dec_args else "")
@@ -404,8 +414,33 @@ def raw_function(case):
     return fn
 
 
+def missing_required(case):
+    """some field without default is given neither by position nor under an accepted spelling"""
+    pos = [p for p in case["params"] if p["kind"] in ("po", "pk")]
+    keys = {k for k, _ in normalise_kwargs(case)}
+    for i, p in enumerate(pos):
+        if not p.get("default") and not is_private_name(p["name"]) and i >= len(case["args"]) and (p["kind"] == "po" or p["name"] not in keys):
+            return True
+    return any(p["kind"] == "ko" and not p.get("default") and not is_private_name(p["name"]) and p["name"] not in keys
+               for p in case["params"])
+
+
+def is_private_name(n):
+    return n.startswith("_")
+
+
+def decl_ok(case):
+    """func.py:253-257: a truthy `addition` in the decorator's Options without a **kwargs parameter is a ConfigError"""
+    add = (case.get("options") or {}).get("addition")
+    truthy = add is True or isinstance(add, dict)
+    return not (truthy and not any(p["kind"] == "vk" for p in case["params"]))
+
+
 def expected(case):
     """('nobind',) | ('fail', param) | ('ok', binding) — what the property demands of this call"""
+    strict_for(case)
+    if not decl_ok(case):
+        return ("declerr",)
     raw = raw_function(case)
     if raw is None:
         return ("badsig",)
@@ -451,6 +486,7 @@ def expected(case):
 
 def gen_expected_trace(case):
     """trace of the undecorated generator on the converted sends, with yields/return converted (pure Python)"""
+    strict_for(case)
     g = case["gen"]
     wrapper = case["wrapper"]
     yt, st = g.get("yt"), g.get("st")
@@ -680,11 +716,30 @@ OPTION_CHOICES = [
     {"collect_errors": True}, {"ignore_alias_conflicts": True}, {"collect_errors": True, "max_errors": 2},
     {"data_first_search": None}, {"data_first_search": True, "ignore_alias_conflicts": True},
 ]
+# decorator-level Options that reach FunctionParser's effective options (func.py:242-249): they must not change what a
+# declared **kwargs / *args receives
+DECL_OPTIONS = [
+    {"no_data_loss": True}, {"no_explicit_cast": True}, {"no_data_loss": True, "no_explicit_cast": True},
+    {"addition": False}, {"addition": True}, {"addition": {"type": "str"}}, {"addition": {"type": "int"}},
+    {"ignore_required": True}, {"mode": "r"}, {"no_data_loss": True, "addition": True}, {"addition": None},
+]
+
+
+def gen_options(rng, params, rate=0.35):
+    opts = dict(rng.choice(OPTION_CHOICES))
+    if rng.random() < rate:
+        extra = dict(rng.choice(DECL_OPTIONS))
+        has_vk = any(p["kind"] == "vk" for p in params)
+        add = extra.get("addition")
+        if (add is True or isinstance(add, dict)) and not has_vk and rng.random() < 0.85:
+            extra.pop("addition")          # (a ConfigError at declaration time: kept in a small share of the cases)
+        opts.update(extra)
+    return opts
 
 
 def gen_binding_case(rng, tier="quick"):
-    opts = dict(rng.choice(OPTION_CHOICES))
     params = gen_sig(rng)
+    opts = gen_options(rng, params)
     ctx = rng.choice(["func"] * 8 + ["inst", "inst", "cls", "cls_outer", "static", "static_inner", "klass", "klass_static", "klass_cls"])
     wrapper = rng.choice(["sync"] * 6 + ["coro", "gen", "agen"])
     case = {"kind": "bind", "params": params, "ctx": ctx, "wrapper": wrapper, "eager": rng.random() < 0.3,
@@ -760,6 +815,12 @@ def gen_focus_case(rng):
                 # a key that may reach the int field b carries an int-readable value
                 hits_b = k.lower() in ("b", "bee")
                 kwargs.append([k, enc(gen_value(rng, "int" if hits_b else vkann))])
+    if rng.random() < 0.5:
+        extra = dict(rng.choice(DECL_OPTIONS))
+        add = extra.get("addition")
+        if (add is True or isinstance(add, dict)) and not any(p["kind"] == "vk" for p in params):
+            extra.pop("addition")
+        opts.update(extra)
     ctx = rng.choice(["func"] * 4 + ["inst", "static", "klass"])
     return {"kind": "bind", "params": params, "ctx": ctx, "wrapper": rng.choice(["sync"] * 4 + ["coro", "gen"]),
             "eager": rng.random() < 0.3, "options": opts, "retval": {"v": 1}, "args": args, "kwargs": kwargs}
@@ -787,6 +848,7 @@ def effective_types(g, wrapper):
 
 
 def gen_generator_case(rng):
+    STRICT[0] = False
     wrapper = rng.choice(["gen", "agen"])
     nsteps = rng.randint(1, 4)
     g = {"annot": rng.choice(["generator"] * 4 + ["iterator", "none"]),
@@ -823,6 +885,36 @@ def gen_generator_case(rng):
     g["sends"] = sends
     return {"kind": "gen", "params": [], "ctx": "func", "wrapper": wrapper, "eager": rng.random() < 0.5,
             "options": {}, "args": [], "kwargs": [], "gen": g}
+
+
+def option_grid_cases():
+    """decorator-level Options x signatures with / without `**kwargs[: T]` and `*args[: T]` x calls with extras"""
+    A = {"name": "a", "kind": "pk", "ann": "int"}
+    sigs = [[A, {"name": "kw", "kind": "vk", "ann": "int"}], [A, {"name": "kw", "kind": "vk"}],
+            [dict(A, default={"v": 0}), {"name": "r", "kind": "vp", "ann": "int"}, {"name": "kw", "kind": "vk", "ann": "str"}],
+            [A, {"name": "r", "kind": "vp", "ann": "int"}], [A, {"name": "r", "kind": "vp"}], [A],
+            [A, {"name": "c", "kind": "ko", "ann": "str", "default": {"v": "d"}}, {"name": "kw", "kind": "vk", "ann": "int"}]]
+    out = []
+    for params in sigs:
+        has_vk = any(p["kind"] == "vk" for p in params)
+        has_vp = any(p["kind"] == "vp" for p in params)
+        calls = [([1], []), (["2"], [])]
+        if has_vk:
+            calls += [([1], [["x", "2"]]), ([1], [["x", 3], ["Y", "4"]]), ([], [["a", "5"], ["x", 0]])]
+        if has_vp:
+            calls += [([1, "5"], []), ([1, 6, "7"], [])]
+        if has_vk and has_vp:
+            calls += [([1, "5"], [["x", 2]])]
+        if any(p["name"] == "c" for p in params):
+            calls += [([1], [["c", 5], ["x", "2"]])]
+        for extra in [{}] + DECL_OPTIONS:
+            for dfs in (False, True, None):
+                opts = dict(extra, data_first_search=dfs)
+                for args, kwargs in calls:
+                    out.append({"kind": "bind", "params": params, "ctx": "func", "wrapper": "sync", "eager": False,
+                                "options": opts, "retval": {"v": 1}, "args": [enc(a) for a in args],
+                                "kwargs": [[k, enc(v)] for k, v in kwargs]})
+    return out
 
 
 def exhaustive_gen_cases(maxlen=3):
@@ -888,9 +980,12 @@ def design_case(case):
 
 def verdict(case, out, ex, nobind_err=None):
     """None when what the implementation did is what `ex` demands"""
+    strict_for(case)
     out = fold(case, out)
     if "decl_err" in out:
-        return None if ex[0] == "badsig" else f"declaration rejected: {out['decl_err']}"
+        return None if ex[0] in ("badsig", "declerr") else f"declaration rejected: {out['decl_err']}"
+    if ex[0] == "declerr":
+        return None
     if ex[0] in ("nobind", "badsig"):
         if nobind_err is not None:
             if out.get("err") != nobind_err or out["body"]:
@@ -1075,7 +1170,9 @@ class C08(Check):
             "call built from the signature (every positional/keyword split, accepted spellings, *args/**kwargs extras, 15% "
             "near-misses), plus generator scripts (1-4 yields, echoing sends) with Generator/Iterator annotations and send "
             "lists whose values include the falsy 0 and '' in every role, plus every send stream of length <= 3 (4 in thorough) "
-            "over {next(), 0, '0' / '', 1 / 'x'} for the four wrappers (sync/async x eager/lazy) and each send type; thorough adds every call of every 1-3 parameter signature over a reduced alphabet.  non-trivial = Python "
+            "over {next(), 0, '0' / '', 1 / 'x'} for the four wrappers (sync/async x eager/lazy) and each send type, plus a grid of "
+            "decorator Options (no_data_loss, no_explicit_cast, addition False/True/type/None, ignore_required, mode; 35% of the "
+            "random cases too) x 7 signatures with / without **kwargs[: T] and *args[: T] x calls with extras x 3 search settings; thorough adds every call of every 1-3 parameter signature over a reduced alphabet.  non-trivial = Python "
             "binds the call, the signature has a parameter and the call passes an argument or a default is filled "
             "(generators: a typed or sent value); distinct by the whole case")
     assumptions = ["value universe of the correspondence run: small ints, digit / non-digit strings; annotations int and str "
@@ -1086,6 +1183,7 @@ class C08(Check):
         out = []
         if tier != "search":
             out += exhaustive_gen_cases(3 if tier == "quick" else 4)
+            out += option_grid_cases()
         if tier == "thorough":
             out += exhaustive_cases()
         for _ in range(n):
@@ -1110,6 +1208,15 @@ class C08(Check):
     def compare(self, case, io, mo):
         if not isinstance(mo, dict) or ("model" not in mo and "trace" not in mo):
             return f"driver: {mo}"
+        if case["kind"] == "bind" and (case.get("options") or {}).get("ignore_required") and missing_required(case):
+            # fragment boundary: under ignore_required a required field that is absent is not an AbsenceError — the raw
+            # function then falls back on whatever Python default the declaration has (the Param object itself).  Python
+            # does not bind such a call, the property is silent; the model keeps the AbsenceError.  Not compared.
+            return None
+        if case["kind"] == "bind" and mo.get("decl_ok") is False:
+            if io.get("decl_err") != "ConfigError":
+                return f"model: ConfigError at declaration time; impl: {io.get('decl_err') or 'declared'}"
+            return None
         if "decl_err" in io:
             return f"declaration rejected by the implementation: {io['decl_err']}"
         if case["kind"] == "gen":
@@ -1119,6 +1226,7 @@ class C08(Check):
             if mo["spec_trace"] != want:
                 return f"HARNESS: lean Spec.genTrace {mo['spec_trace']} != python oracle {want}"
             return None
+        strict_for(case)
         io = fold(case, io)
         m = mo["model"]
         ctx = case.get("ctx", "func")
@@ -1151,7 +1259,7 @@ class C08(Check):
         # the Lean specification against the inspect-based oracle
         ex = expected(case)
         ls = mo["spec"]
-        if ex[0] in ("nobind", "badsig"):
+        if ex[0] in ("nobind", "badsig", "declerr"):
             want = None
         elif ex[0] == "fail":
             want = {"out": "perr"}
